@@ -3,7 +3,8 @@
 Pipeline (model-based, TLA+ decides):
   1. TLC explores spec/python/MC_PyLayer exhaustively: the binding's index / option logic as coded (Level B:
      transposition, y_events flattening, sol(t) layout, status map, option-parsing table, the parse_events loop over lists
-     of 2 and 3 event functions each with / without its own terminal / direction attributes, greedy column grouping and
+     of 2 and 3 event functions each with / without its own terminal / direction attributes, the Jacobian source for every
+     combination of jac {absent, callable, constant C / F array} with jac_sparsity {absent, 9 containers}, greedy column grouping and
      grouped finite differences) is checked against the Level-A contract of C20 for every input of the bounded model
      (all shapes n, m <= 4; all 400 + 8 000 attribute lists; all 0/1 sparsity patterns n <= 3 plus a seed-selected 1/64 of
      n = 4 in quick, all 65 536 in thorough).  One REPLAY record per input.  A violated invariant here is a model problem (tool error), not a verdict.
@@ -52,6 +53,9 @@ ASSUMPTIONS = [
     "for that function's own attributes (absent = non-terminal, both directions); quick replays every pair and a seed-selected 1/4 of the "
     "triples, thorough all of them; lists containing terminal = 1 or direction = 2 (outside the docstring) are Level-B only (drift); the "
     "threshold event functions are crossed in both directions in every case (measured: r.census, clause Adequate of Trace_Py)",
+    "Jacobian sources: the Rust reference uses the source PyLayer's JacSourceContract names for the combination (user Jacobian when jac is "
+    "given -- whatever pattern is passed next to it, also a deliberately narrower diagonal-only one; else the default finite differences); "
+    "a dense 0/1 ndarray as jac_sparsity is not accepted by the binding (AttributeError, see notes) and is not part of the combinations",
     "TLC and the CommunityModules Json/IOUtils modules are trusted; scipy is not used",
 ]
 
@@ -257,7 +261,7 @@ def run(tier, seed, replay, keep):
             raise vlib.ToolError(f"TLC failed on MC_PyLayer: {r.error}")
         scen = [_replay_payload(line) for line in r.lines("REPLAY")]
         kinds = collections.Counter(s["kind"] for s in scen)
-        if not scen or not kinds.get("pattern") or not kinds.get("shape") or not kinds.get("method") or not kinds.get("evlist"):
+        if not scen or not kinds.get("pattern") or not kinds.get("shape") or not kinds.get("method") or not kinds.get("evlist") or not kinds.get("jacsrc"):
             raise vlib.ToolError("MC_PyLayer produced no / incomplete REPLAY lines")
         scen.sort(key=lambda s: json.dumps(s, sort_keys=True))
         sfile = os.path.join(work, "scen.json")
@@ -319,8 +323,12 @@ def run(tier, seed, replay, keep):
             "y_shapes_observed": len(shapes), "y_shapes_small": [f"{a}x{b}" for (a, b) in shapes if b <= 4],
             "notes": NOTES,
             "statuses_other_than_success": {k: v for k, v in cover_kinds.items()
-                                            if k not in ("both-fail", "event-found", "evlist-both-directions")},
+                                            if k not in ("both-fail", "event-found", "evlist-both-directions", "jac-with-pattern",
+                                                         "pattern-changed-evaluation-count")},
             "cases_with_event_found": cover_kinds.get("event-found", 0),
+            "jac_source_cases": {k: v for k, v in classes.items() if k.startswith("jac-source")},
+            "jac_source_cases_jac_given_with_pattern": cover_kinds.get("jac-with-pattern", 0),
+            "sparsity_cases_where_the_pattern_changed_the_evaluation_count": cover_kinds.get("pattern-changed-evaluation-count", 0),
             "event_list_cases": {k: v for k, v in classes.items() if k.startswith("ev-list")},
             "event_list_cases_documented_forms_only": sum(1 for c in cases if c["class"].startswith("ev-list") and c["doc"]),
             "event_list_cases_with_crossings_in_both_directions_for_every_event": cover_kinds.get("evlist-both-directions", 0),
